@@ -26,20 +26,9 @@ Definition tcp_hdr_of (t : Tcp.TcpHeader) : tcp_hdr :=
      t_cwr := Tcp.cwr t; t_window := Tcp.window_size t; t_urgent := Tcp.urgent_pointer t;
      t_options := take (Tcp.o_len (Tcp.options t)) (Tcp.o_buf (Tcp.options t)) |}.
 
-Definition icmp4_of (k : icmp_kind) : option icmp4_type :=
-  match k with
-  | IcUnknown ty code [a; b; c; d] => Some (I4Unknown ty code a b c d)
-  | IcUnknown _ _ _ => None
-  | IcEchoRequest id seq => Some (I4EchoRequest id seq)
-  | IcEchoReply id seq => Some (I4EchoReply id seq)
-  end.
-Definition icmp6_of (k : icmp_kind) : option icmp6_type :=
-  match k with
-  | IcUnknown ty code [a; b; c; d] => Some (I6Unknown ty code a b c d)
-  | IcUnknown _ _ _ => None
-  | IcEchoRequest id seq => Some (I6EchoRequest id seq)
-  | IcEchoReply id seq => Some (I6EchoReply id seq)
-  end.
+(* the configured message type as the C09 input value (Model.c09_icmp4 / c09_icmp6) *)
+Definition icmp4_of (t : CtlMsg.Spec.Icmpv4Type) : option icmp4_type := Some (c09_icmp4 t).
+Definition icmp6_of (t : CtlMsg.Spec.Icmpv6Type) : option icmp6_type := Some (c09_icmp6 t).
 
 (* the TransportHeader value on which update_checksum_ipv4/_ipv6 is called:
    udp.length has been set to `udp_length` before *)
@@ -239,3 +228,28 @@ Definition wire_entry (c : cfg) (bs : bytes) : vres :=
   | LkLinuxSll _ _ _ => EP.Parse.WireSpec.wire_linux_sll bs
   | LkNone => EP.Parse.WireSpec.wire_from_ip bs
   end.
+
+(* ------------------------------------------------------------------ the layers in front of the transport position *)
+(* what the decoder has recovered when it reaches the IP header / the transport position *)
+Definition link_view (c : cfg) (total : N) : vpacket :=
+  mkVPacket (exp_link c total) (exp_exts c total) None None.
+Definition upto_net (c : cfg) (plen : N) : vpacket :=
+  let total := final_size c plen in
+  mkVPacket (exp_link c total) (exp_exts c total) (exp_net_x c total) None.
+(* the length field that bounds the IP payload *)
+Definition ip_len_src (c : cfg) : len_source :=
+  match c_net c with NtIpv4 _ _ => LsIpv4HeaderTotalLen | _ => LsIpv6HeaderPayloadLen end.
+
+(* the number announced in front of the transport position is not one the decoder reads
+   as a further extension header: IPv4 -- not 51 (authentication header); IPv6 -- not
+   0 / 43 / 44 / 51 / 60.  Always true for udp / tcp / icmpv4 / icmpv6. *)
+Definition chain_ok (c : cfg) : bool :=
+  match c_net c with
+  | NtIpv4 _ _ => negb (tr_ip_number (c_transport c) =? 51)
+  | NtIpv6 _ _ => negb (ExtChain.Spec.is_ext_number (tr_ip_number (c_transport c)))
+  | NtArp _ => true
+  end.
+
+(* the layer named by a refused ICMPv4 timestamp message *)
+Definition ts_layer (t : CtlMsg.Spec.Icmpv4Type) : layer :=
+  if fst (icmp4_tc t) =? 13 then LyIcmpv4Timestamp else LyIcmpv4TimestampReply.
